@@ -309,7 +309,7 @@ Proof.
   destruct (flat_esub x y Hsh) as [_ Hsd].
   pose proof (normable_shape q s x (esub x y) Hn Hsd) as Hnd.
   destruct s as [lf|w p cs]; destruct x as [a|xs]; destruct y as [b|ys]; cbn [normable same_shape] in Hn, Hsh; try tauto.
-  - cbn [sp_dist esub sp_norm_v]. apply leaf_dist_value; [tauto | tauto | lia].
+  - cbn [sp_dist esub sp_norm_v]. apply leaf_dist_value; [tauto | lia].
   - destruct w as [c|arr].
     + cbn [sp_dist]. cbn [esub] in *.
       destruct Hn as (Hp & Hne & Hw & _). cbn [pw_ok] in Hw.
